@@ -3,34 +3,24 @@
    layout tables; these have park operations and qubit indices that are not in chain order), refocusing on and off, for
    EVERY cycle count the exporter accepts -- with ONE requested state: data values 1, 0, 1, 0, ... and no ancilla values.
    Same method as StimBridgeCycles.v (the repetition count of the second sub-circuit and the round number stay free
-   variables in the VM's evaluations); one case per description.  Optional target: ~6 minutes. *)
+   variables in the VM's evaluations); one case per description.  Checked in four chunks (StimBridgeLayouts0..3.v, compiled in parallel). *)
 From Coq Require Import ZArith List Bool String Lia.
 Import ListNotations.
 From QCE Require Import Base.Prelude Core.Model Core.Run C08.Tree C08.Model C08.Proofs Bridge.TreeOfOp C09.Stim C09.Spec C09.Sem
-                        C09.Model C09.Proofs LibBuild.Model LibBuild.Cert LibBuild.StimBridge LibBuild.StimBridgeProofs LibBuild.StimBridgeCycles.
+                        C09.Model C09.Proofs LibBuild.Model LibBuild.Cert LibBuild.StimBridge LibBuild.StimBridgeProofs LibBuild.StimBridgeCycles LibBuild.StimBridgeLayoutsDefs
+                        LibBuild.StimBridgeLayouts0 LibBuild.StimBridgeLayouts1 LibBuild.StimBridgeLayouts2 LibBuild.StimBridgeLayouts3.
 From Gen Require Import Ident Classes Tables Layouts.
 Open Scope list_scope.
 Open Scope Z_scope.
 
-(* 1, 0, 1, 0, ... *)
-Definition alt_state (n : nat) : list bool := map Nat.even (seq 0 n).
-Definition lay_state (D : rdesc) : list bool := alt_state (List.length (r_data D)).
-
-Definition layout_descs : list rdesc :=
-  flat_map (fun Lc => [desc_of_layout (fst Lc) (snd Lc) true; desc_of_layout (fst Lc) (snd Lc) false]) all_layout_subchains.
-
-Ltac layouts_solve :=
-  lazymatch goal with
-  | |- Forall _ ?l => let v := eval vm_compute in l in change l with v
-  end;
-  repeat (apply Forall_cons; [
-    lazymatch goal with
-    | |- all_cycles_ok ?D (lay_state ?D) [] => let v := eval vm_compute in (lay_state D) in change (lay_state D) with v
-    end; case_solve |]);
-  apply Forall_nil.
+Lemma layout_descs_chunks : layout_descs = chunk 0 ++ chunk 1 ++ chunk 2 ++ chunk 3.
+Proof. vm_compute. reflexivity. Qed.
 
 Lemma layout_descs_checked : Forall (fun D => all_cycles_ok D (lay_state D) []) layout_descs.
-Proof. layouts_solve. Qed.
+Proof.
+  rewrite layout_descs_chunks. repeat (apply Forall_app; split);
+    [exact chunk0_checked | exact chunk1_checked | exact chunk2_checked | exact chunk3_checked].
+Qed.
 
 Theorem layouts_all_cycles : forall L ch rf cycles, In (L, ch) all_layout_subchains -> 0 <= cycles < two64 + 3 ->
   let D := desc_of_layout L ch rf in
